@@ -51,7 +51,7 @@ MANIFEST = {
     "compile_outer on the installed tket 0.15.9/hugr 0.18.6. Correspondence is sampling (quick ~170, thorough ~3300 cases).",
     "technique": "Lean 4 proof over a hand-written model + T-obj wiring extraction from the real lowering + independent oracle",
     "design_ref": "DESIGN.md §5 C26",
-    "ready": False,
+    "ready": True,
 }
 
 NAME = "circ"
@@ -525,9 +525,14 @@ def stub_source(stub):
     return f"@guppy.pytket(circ)\ndef {NAME}({', '.join(ps)}){ret}:\n" + BODIES[stub["body"]][0]
 
 
+def _sig_error(stub):
+    """check_signature raises: missing annotation, or `@owned` on a copyable type (NonLinearOwnedError)"""
+    return stub["ret"] is None or any(a is None or (o and a not in LINEAR) for a, o in stub["params"])
+
+
 def stub_model_sig(stub):
     """what check_signature returns for this stub, described for the model ('none' = it raises)"""
-    if stub["ret"] is None or any(a is None for a, _o in stub["params"]):
+    if _sig_error(stub):
         return "none"
     ins = []
     for ann, owned in stub["params"]:
@@ -592,7 +597,7 @@ def oracle_stub(case):
     ns = len(case_symbols(case))
     if BODIES[stub["body"]][1] not in ([], ["e"]):
         return "bodyNotEmpty"
-    if stub["ret"] is None or any(a is None for a, _o in stub["params"]):
+    if _sig_error(stub):
         return "signatureError"
     want_params = [("qubit", False)] * nq + [("angle", False)] * ns
     want_ret = "None" if nb == 0 else "bool" if nb == 1 else "tuple[" + ", ".join(["bool"] * nb) + "]"
